@@ -8,6 +8,10 @@ Main theorems (E57/Proofs/ReaderTotal.lean):
  * `advance_bytes_consumed`, `advance_held`, `advance_queue_growth`, `advance_allZeroWidth`
        bytes held <= bytes consumed <= file size; queue growth per call <= 8 x bytes held (+1 per call when all
        records have zero width: no unbounded fill)
+ * `advance_queue_growth_linear`, `reader_constants_unqueued`
+       the values one `advance` adds to ALL queues together <= 8 x (bytes held before + bytes consumed by the call)
+       (<= number of records for an all-constant cloud); records of zero bit size are never queued, so there is
+       no (zero-width records) x (values) term
  * `extractXml_too_long`, `Reader.open_spec`   XML <= 10 MiB, one 1024-byte page buffer
  * `blobRead_spec`, `blobRead_exact_or_error`   a blob extraction consumes <= 16 + length bytes and returns exactly
        `length` bytes or an error
